@@ -136,7 +136,12 @@ impl KBucket {
     }
 
     fn add_node(&mut self, node: NodeInfo) -> Result<()> {
-        if self.nodes.len() < self.max_size {
+        if let Some(pos) = self.nodes.iter().position(|n| n.id == node.id) {
+            // Already listed: refresh the entry (most recently seen goes to the tail)
+            self.nodes.remove(pos);
+            self.nodes.push(node);
+            Ok(())
+        } else if self.nodes.len() < self.max_size {
             self.nodes.push(node);
             Ok(())
         } else {
@@ -179,6 +184,10 @@ impl KademliaRoutingTable {
     }
 
     fn add_node(&mut self, node: NodeInfo) -> Result<()> {
+        if node.id == self.node_id {
+            // The local node is never an entry of its own routing table
+            return Ok(());
+        }
         let bucket_index = self.get_bucket_index(&node.id);
         self.buckets[bucket_index].add_node(node)
     }
